@@ -27,7 +27,7 @@ theorem annotations_perm {inits : List TensorP} {inputs outputs vis : List Value
     (normQuantFor quant
       ((inputs.map (·.name)).filter (fun n => !(inits.map (·.name)).contains n) ++ inits.map (·.name)
         ++ outs.filter (fun n => !(outputs.map (·.name)).contains n)
-        ++ (outputs.map (·.name)).filter
+        ++ (dedupStr (outputs.map (·.name))).filter
             (fun n => !(inputs.map (·.name)).contains n && !(inits.map (·.name)).contains n))).Perm
       (quant.map normAnnot) := by
   have hK := quantKeys_nodup hw
@@ -49,6 +49,10 @@ theorem annotations_perm {inits : List TensorP} {inputs outputs vis : List Value
         · cases hn; exact ⟨a, (findAnnot_name hf).1, rfl⟩
     · rintro ⟨a, ha, rfl⟩
       obtain ⟨hname, hne, _⟩ := hw.quantOK a ha
+      have hfa0 : findAnnot quant a.tensorName = some a := by
+        unfold findAnnot
+        rw [findLast?_eq_find? (fun x : AnnotP => x.tensorName) a.tensorName _ hw.nodupQuant]
+        exact find?_of_nodup (fun x : AnnotP => x.tensorName) hw.nodupQuant ha
       refine ⟨a.tensorName, ?_, ?_⟩
       · -- every declared name is among the keys
         rcases mem_scopeNames.1 hname with h | h | h
@@ -58,7 +62,7 @@ theorem annotations_perm {inits : List TensorP} {inputs outputs vis : List Value
               (List.mem_filter.2 ⟨h, by simpa using hi⟩)))
         · exact List.mem_append_left _ (List.mem_append_left _ (List.mem_append_right _ h.1))
         · by_cases ho : a.tensorName ∈ outputs.map (·.name)
-          · exact List.mem_append_right _ (List.mem_filter.2 ⟨ho, by
+          · exact List.mem_append_right _ (List.mem_filter.2 ⟨mem_dedupStr.2 ho, by
               have := hdis _ h
               simp [this.1, this.2]⟩)
           · exact List.mem_append_left _ (List.mem_append_right _ (List.mem_filter.2 ⟨h, by simpa using ho⟩))
